@@ -134,7 +134,9 @@ func ruleWatermarkAtomic(c *Check, rule string) {
 			KeepEvent: func(e *Event) bool {
 				return e.Kind == "ret" || e.Kind == "call" && (strings.Contains(e.Callee, "lmdb.Env") || strings.Contains(e.Callee, "$bound"))
 			},
-			KeepAtom: func(a Atom) bool { return strings.Contains(a.String(), "Info@") || strings.Contains(a.String(), "isnil((*lmdb.Env)") },
+			KeepAtom: func(a Atom) bool {
+				return strings.Contains(a.String(), "Info@") || strings.Contains(a.String(), "isnil((*lmdb.Env)")
+			},
 		})
 		if paths == nil {
 			continue
@@ -198,8 +200,10 @@ func ruleNativeWrites(c *Check, rule string) {
 	c.Floor(rule, n, 3, "native-mode paths of LoadOnce body")
 	// SendOnce: read-only transaction exactly in native mode
 	sfn, sp := c.walkFn(rule, fnSendOnce, WalkConfig{Memo: true,
-		KeepEvent: func(e *Event) bool { return e.Kind == "ret" || e.Kind == "call" && strings.Contains(e.Callee, "$bound") },
-		KeepAtom:  func(a Atom) bool { return strings.Contains(a.String(), "SchemaTracksChanges") }})
+		KeepEvent: func(e *Event) bool {
+			return e.Kind == "ret" || e.Kind == "call" && strings.Contains(e.Callee, "$bound")
+		},
+		KeepAtom: func(a Atom) bool { return strings.Contains(a.String(), "SchemaTracksChanges") }})
 	if sp == nil {
 		return
 	}
